@@ -18,6 +18,7 @@
   `coverage.pty_available` in the evidence says whether).
 -/
 import NxsModel.Lemmas.Pipe
+import NxsModel.Lemmas.R7Pipe
 import NxsModel.Lemmas.ReasmRun
 import NxsModel.Lemmas.SerialLawful
 namespace Nxs.C18
@@ -316,5 +317,281 @@ example :
       .peerSend [0x01, 0x88, 0x9c], .osDeliver 4, .read, .osDeliver 100, .read]
     Op.dropAll ∉ ops ∧ (run Port.real (init 0) ops).1.rxFlight = [] ∧ (run Port.real (init 0) ops).1.rxWaiting = [] ∧
       Reasm.run Serial.codec (readChunks (run Port.real (init 0) ops).2) = [⟨5, [0x01]⟩] := by decide +kernel
+
+/-! ## Round 7 additions
+
+New model file `NxsModel/PipeLine.lean` (the line composed with the pipe, constructor arguments as parameters,
+the closing history `drainOps`, `stripOs`); helper lemmas in `Lemmas/R7Pipe.lean`. -/
+
+/-! ### every byte sent IS returned by reads (not only "a prefix of") -/
+
+/-- from any state, on any lawful port: the closing history `drainOps s` (the OS hands over what is in flight,
+    then as many reads as there can be bytes) leaves nothing in flight or waiting and the client has taken
+    exactly what was pending, in order.  So the hypotheses "everything delivered and read" of `reads_concat`,
+    `session_same_as_ideal…` can be reached from every state by finitely many ops. -/
+theorem everything_eventually_read (pt : Port) (hl : pt.Lawful) (s : State) :
+    (run pt s (drainOps s)).1.rxFlight = [] ∧ (run pt s (drainOps s)).1.rxWaiting = [] ∧
+    clientGot (run pt s (drainOps s)).2 = s.rxWaiting ++ s.rxFlight := by
+  obtain ⟨h1, h2⟩ := run_drainOps pt hl s
+  rw [h1]
+  exact ⟨rfl, rfl, h2⟩
+
+/-- for EVERY history from a fresh port (any writes, sends of any sizes, OS chunking, reads, read errors,
+    `drop_all`s — unbounded), once the line is drained the client has been handed exactly the concatenation of
+    everything the other end sent: no byte is withheld for ever -/
+theorem reads_complete (pt : Port) (hl : pt.Lawful) (p : Nat) (ops : List Op) :
+    clientGot (run pt (init p) (ops ++ drainOps (run pt (init p) ops).1)).2 = peerSent ops := by
+  rw [run_append]
+  simp only
+  rw [clientGot_append, (run_drainOps pt hl _).2, ← List.append_assoc]
+  have h := run_rx pt (init p) ops
+  simpa [init] using h
+
+/-- the port of the working tree is lawful, so both hold for it; hypotheses satisfiable -/
+example : clientGot (run Port.real (init 4)
+    ([.peerSend [0x00, 0xff], .osDeliver 1, .read, .peerSend [0x0a, 0x0d, 0x11, 0x13]] ++
+      drainOps (run Port.real (init 4) [.peerSend [0x00, 0xff], .osDeliver 1, .read,
+        .peerSend [0x0a, 0x0d, 0x11, 0x13]]).1)).2 = [0x00, 0xff, 0x0a, 0x0d, 0x11, 0x13] := by decide
+
+/-! ### histories compose; what was read / has arrived is never taken back -/
+
+/-- a history run in two parts: the second part starts from the state the first left, and what the client
+    got / the other end got over the whole is the concatenation over the parts -/
+theorem run_compositional (pt : Port) (s : State) (a b : List Op) :
+    (run pt s (a ++ b)).1 = (run pt (run pt s a).1 b).1 ∧
+    clientGot (run pt s (a ++ b)).2 = clientGot (run pt s a).2 ++ clientGot (run pt (run pt s a).1 b).2 ∧
+    peerGot (run pt s (a ++ b)).2 = peerGot (run pt s a).2 ++ peerGot (run pt (run pt s a).1 b).2 ∧
+    readChunks (run pt s (a ++ b)).2 = readChunks (run pt s a).2 ++ readChunks (run pt (run pt s a).1 b).2 := by
+  rw [run_append]
+  exact ⟨rfl, clientGot_append _ _, peerGot_append _ _, readChunks_append _ _⟩
+
+/-- monotonicity: whatever happens later (any continuation `b`), the bytes the client has read so far and the
+    bytes that reached the other end so far stay a prefix of the later ones -/
+theorem got_monotone (pt : Port) (s : State) (a b : List Op) :
+    clientGot (run pt s a).2 <+: clientGot (run pt s (a ++ b)).2 ∧
+    peerGot (run pt s a).2 <+: peerGot (run pt s (a ++ b)).2 := by
+  obtain ⟨_, h2, h3, _⟩ := run_compositional pt s a b
+  exact ⟨⟨_, h2.symm⟩, ⟨_, h3.symm⟩⟩
+
+/-! ### reads that return nothing lose nothing -/
+
+/-- a read during a `SerialException` (the handler branch of `_read`), placed anywhere in any history, is
+    invisible to everything else: same final state, same bytes for the client, same bytes at the other end;
+    the only trace is one empty chunk in the list of read results -/
+theorem read_error_invisible (pt : Port) (s : State) (a b : List Op) :
+    (run pt s (a ++ .readError :: b)).1 = (run pt s (a ++ b)).1 ∧
+    clientGot (run pt s (a ++ .readError :: b)).2 = clientGot (run pt s (a ++ b)).2 ∧
+    peerGot (run pt s (a ++ .readError :: b)).2 = peerGot (run pt s (a ++ b)).2 ∧
+    readChunks (run pt s (a ++ .readError :: b)).2
+      = readChunks (run pt s a).2 ++ [] :: readChunks (run pt (run pt s a).1 b).2 := by
+  rw [run_append, run_append, run_cons]
+  refine ⟨rfl, ?_, ?_, ?_⟩
+  · simp only [clientGot_append]; rfl
+  · simp only [peerGot_append]; rfl
+  · simp only [readChunks_append]; rfl
+
+/-- the same for a read on an idle line (nothing waiting at that point), on any lawful port: a zero-length
+    read never takes, loses or delays anything, wherever it is placed -/
+theorem idle_read_invisible (pt : Port) (hl : pt.Lawful) (s : State) (a b : List Op)
+    (h : (run pt s a).1.rxWaiting = []) :
+    (run pt s (a ++ .read :: b)).1 = (run pt s (a ++ b)).1 ∧
+    clientGot (run pt s (a ++ .read :: b)).2 = clientGot (run pt s (a ++ b)).2 ∧
+    peerGot (run pt s (a ++ .read :: b)).2 = peerGot (run pt s (a ++ b)).2 ∧
+    anyBlocked (run pt s (a ++ .read :: b)).2 = false := by
+  have hb := run_not_blocked pt hl s (a ++ .read :: b)
+  rw [run_append, run_append, run_cons, step_read_idle pt hl _ h]
+  refine ⟨rfl, ?_, ?_, ?_⟩
+  · simp only [clientGot_append]; rfl
+  · simp only [peerGot_append]; rfl
+  · rw [run_append, run_cons, step_read_idle pt hl _ h] at hb
+    exact hb
+
+/-- hypotheses satisfiable: an idle read between a send and its delivery -/
+example : (run Port.real (init 0) [.peerSend [1, 2]]).1.rxWaiting = [] ∧
+    run Port.real (init 0) ([.peerSend [1, 2]] ++ .read :: [.osDeliver 2, .read])
+      = (⟨0, [], [], [], []⟩, [.none, .read [] false, .none, .read [1, 2] false]) := by decide
+
+/-! ### the OS chunking does not matter -/
+
+/-- two histories from a fresh port in which the client and the other end do the same things in the same order
+    (`stripOs` equal) but the OS moves the bytes in different pieces at different moments: once both are drained
+    the client has read the same bytes, and — without `drop_all` — the receive path of C03 extracts the same
+    frames from the two different lists of read results, for every codec honouring the frame interface -/
+theorem chunking_irrelevant (c : Codec) (hc : LawfulCodec c) (pt : Port) (p q : Nat) (ops ops' : List Op)
+    (hsame : stripOs ops = stripOs ops')
+    (hf : (run pt (init p) ops).1.rxFlight = []) (hw : (run pt (init p) ops).1.rxWaiting = [])
+    (hf' : (run pt (init q) ops').1.rxFlight = []) (hw' : (run pt (init q) ops').1.rxWaiting = []) :
+    clientGot (run pt (init p) ops).2 = clientGot (run pt (init q) ops').2 ∧
+    (Op.dropAll ∉ ops → Op.dropAll ∉ ops' →
+      Reasm.run c (readChunks (run pt (init p) ops).2) = Reasm.run c (readChunks (run pt (init q) ops').2)) := by
+  have hs : peerSent ops = peerSent ops' := by
+    rw [← stripOs_peerSent ops, ← stripOs_peerSent ops', hsame]
+  refine ⟨?_, ?_⟩
+  · rw [(reads_concat pt p ops).2 hf hw, (reads_concat pt q ops').2 hf' hw', hs]
+  · intro hnd hnd'
+    have h1 := (session_same_as_ideal_from c hc pt (init p) ops hnd hf hw).1
+    have h2 := (session_same_as_ideal_from c hc pt (init q) ops' hnd' hf' hw').1
+    rw [h1, h2]
+    simp only [init, List.append_nil, List.nil_append]
+    rw [hs]
+
+/-- hypotheses satisfiable: the same send and two reads, delivered 1 + 2 in one history and 3 at once in the other -/
+example :
+    let ops : List Op := [.peerSend [0x55, 0x07, 0x00], .osDeliver 1, .read, .osDeliver 2, .read]
+    let ops' : List Op := [.peerSend [0x55, 0x07, 0x00], .read, .osDeliver 3, .read]
+    stripOs ops = stripOs ops' ∧ readChunks (run Port.real (init 0) ops).2 ≠ readChunks (run Port.real (init 0) ops').2 ∧
+    (run Port.real (init 0) ops).1.rxFlight = [] ∧ (run Port.real (init 0) ops').1.rxWaiting = [] := by decide
+
+/-! ### transparency as a statement about the parameters the port is opened with
+
+`Line.opened bytesize parity stopbits` is the line of a `SerialDevice(port, baud, bytesize, parity, stopbits)` for
+caller-supplied arguments; the flow-control settings are the translator facts whatever the caller passes. -/
+
+/-- any line: byte STRINGS of any length pass unchanged (nothing dropped, altered) exactly when the line has at
+    least 8 data bits and no XON/XOFF handling -/
+theorem line_strings_iff (l : Line) : (∀ d : Bytes, l.carryBytes d = d) ↔ l.transparent = true := by
+  constructor
+  · intro h
+    cases ht : l.transparent with
+    | true => rfl
+    | false =>
+      rcases Line.carryBytes_witness l ht with hw | hw
+      · exact absurd (h _) hw
+      · exact absurd (h _) hw
+  · exact fun h d => Line.carryBytes_of_transparent l h d
+
+/-- whatever `bytesize`, `parity`, `stopbits` the caller of `SerialDevice(…)` passes: no flow control of any kind
+    is ever enabled (nobody but the sender can hold writes, 0x11 / 0x13 are never eaten), parity and stop bits
+    never matter for the bytes, and byte strings of every length pass unchanged iff `bytesize ≥ 8` (pyserial
+    accepts 5..8, so: iff it is 8) -/
+theorem opened_transparent_iff (bytesize : Nat) (parity : String) (stopbits : Nat) :
+    (Line.opened bytesize parity stopbits).mayHoldWrites = false ∧
+    (Line.opened bytesize parity stopbits).carry 0x11 = some (0x11 % 2 ^ bytesize) ∧
+    (Line.opened bytesize parity stopbits).carry 0x13 = some (0x13 % 2 ^ bytesize) ∧
+    ((∀ d : Bytes, (Line.opened bytesize parity stopbits).carryBytes d = d) ↔ 8 ≤ bytesize) := by
+  refine ⟨rfl, ?_, ?_, ?_⟩
+  · simp [Line.carry, Line.opened, Gen.SerialIntf.openXonXoff]
+  · simp [Line.carry, Line.opened, Gen.SerialIntf.openXonXoff]
+  · rw [line_strings_iff]
+    simp only [Line.transparent, Line.opened, Gen.SerialIntf.openXonXoff, Bool.not_false, Bool.and_true]
+    exact decide_eq_true_iff
+
+/-- any line without XON/XOFF handling passes every string whose bytes fit into its data bits — in particular the
+    control characters 0x00, 0x0a, 0x0d, 0x11, 0x13 (all below 32) on every line pyserial can open (≥ 5 data bits) -/
+theorem small_bytes_pass (l : Line) (hx : l.xonxoff = false) (d : Bytes)
+    (hd : ∀ b ∈ d, b.toNat < 2 ^ l.dataBits) : l.carryBytes d = d := by
+  induction d with
+  | nil => rfl
+  | cons b d ih =>
+    have hb := hd b List.mem_cons_self
+    have ih' := ih (fun x hx' => hd x (List.mem_cons_of_mem _ hx'))
+    unfold Line.carryBytes at ih' ⊢
+    have hc : l.carryByte b = some b := by
+      simp only [Line.carryByte, Line.carry, hx, Bool.false_and, Bool.false_eq_true, if_false, Option.map_some,
+        Nat.mod_eq_of_lt hb, BitVec.ofNat_toNat, BitVec.setWidth_eq]
+    rw [List.filterMap_cons, hc]
+    simp only
+    rw [ih']
+
+/-- the control characters and the two extreme values through the line the source opens by default, and the control
+    characters through a 5-bit line opened by a caller -/
+theorem control_characters_pass :
+    Line.real.carryBytes [0x00, 0xff, 0x0a, 0x0d, 0x11, 0x13] = [0x00, 0xff, 0x0a, 0x0d, 0x11, 0x13] ∧
+    ∀ bytesize parity stopbits, 5 ≤ bytesize →
+      (Line.opened bytesize parity stopbits).carryBytes [0x00, 0x0a, 0x0d, 0x11, 0x13] = [0x00, 0x0a, 0x0d, 0x11, 0x13] := by
+  refine ⟨Line.carryBytes_of_transparent _ (by decide) _, ?_⟩
+  intro bytesize parity stopbits h5
+  apply small_bytes_pass _ rfl
+  have hp : 2 ^ 5 ≤ 2 ^ bytesize := Nat.pow_le_pow_right (by decide) h5
+  intro b hb
+  show b.toNat < 2 ^ bytesize
+  simp only [List.mem_cons, List.mem_nil_iff, or_false] at hb
+  rcases hb with rfl | rfl | rfl | rfl | rfl <;> simp <;> omega
+
+/-- …and what a caller loses by passing `bytesize=7`: 0xff arrives as 0x7f; with XON/XOFF a string gets shorter -/
+example : (Line.opened 7 "E" 2).carryBytes [0x00, 0xff, 0x0a] = [0x00, 0x7f, 0x0a] ∧
+    (⟨8, "N", 1, true, false, false⟩ : Line).carryBytes [0x10, 0x11, 0x12, 0x13, 0x14] = [0x10, 0x12, 0x14] := by decide
+
+/-- the FIFO abstraction is justified for the parameters the port is opened with: the pipe in which every write
+    and every send first goes through the line (`runLine`) IS the pipe of `Pipe.lean`, op for op, for every
+    history from every state — over the default line of the source, and over the line of any caller passing
+    8 data bits (any parity, any stop bits) -/
+theorem pipe_over_opened_line (pt : Port) (s : State) (ops : List Op) :
+    runLine Line.real pt s ops = run pt s ops ∧
+    ∀ parity stopbits, runLine (Line.opened 8 parity stopbits) pt s ops = run pt s ops :=
+  ⟨runLine_of_transparent _ (by decide) pt s ops,
+   fun _ _ => runLine_of_transparent _ rfl pt s ops⟩
+
+/-- over a 7-bit line the same history is NOT the FIFO pipe: 0x80 written arrives as 0x00 -/
+example : (runLine (Line.opened 7 "N" 1) Port.real (init 0) [.write [0x80], .osDeliverTx 1, .peerRecv]).2
+      = [.none, .none, .peer [0x00]] ∧
+    (run Port.real (init 0) [.write [0x80], .osDeliverTx 1, .peerRecv]).2 = [.none, .none, .peer [0x80]] := by decide
+
+
+/-! ### how many reads can return something; the polling loop of `drop_all` while bytes keep arriving
+
+The op `dropAll` is the loop of `drop_all` on a line on which nothing arrives meanwhile.  With arrivals in between, the
+loop is a history of `read`s (results discarded) interleaved with sends and OS steps — already a history of `run`. -/
+
+/-- in every history the number of reads that return something is at most the number of bytes there are (pending at
+    the start + sent by the other end): a read never returns a byte twice, and a non-empty read consumes at least one -/
+theorem nonempty_reads_bounded (pt : Port) (s : State) (ops : List Op) :
+    ((readChunks (run pt s ops).2).filter (fun c => !c.isEmpty)).length
+      ≤ (s.rxWaiting ++ s.rxFlight ++ peerSent ops).length := by
+  have h1 := nonempty_le_flatten (readChunks (run pt s ops).2)
+  have h2 := readChunks_flatten_le (run pt s ops).2
+  have h3 := congrArg List.length (run_rx pt s ops)
+  simp only [List.length_append] at h3 ⊢
+  omega
+
+/-- hence the polling loop of `drop_all` ends on every line on which the other end sends finitely much, whatever the
+    interleaving of its polls with sends and OS deliveries: among any `polls + bytes` reads at least `polls` (4 in the
+    source) came back empty.  (It does NOT end while every poll finds a new byte — example below.) -/
+theorem drop_all_polls_end (pt : Port) (s : State) (ops : List Op)
+    (h : Gen.SerialIntf.dropAllPolls + (s.rxWaiting ++ s.rxFlight ++ peerSent ops).length
+      ≤ (readChunks (run pt s ops).2).length) :
+    Gen.SerialIntf.dropAllPolls ≤ ((readChunks (run pt s ops).2).filter (fun c => c.isEmpty)).length := by
+  have h1 := nonempty_reads_bounded pt s ops
+  have h2 := filter_split (readChunks (run pt s ops).2)
+  omega
+
+/-- hypotheses satisfiable (2 bytes, 6 polls → 4 empty ones); and a line that feeds one byte per poll: no empty read -/
+example :
+    let ops : List Op := [.peerSend [1, 2], .osDeliver 1, .read, .read, .osDeliver 1, .read, .read, .read, .read]
+    Gen.SerialIntf.dropAllPolls + (peerSent ops).length ≤ (readChunks (run Port.real (init 0) ops).2).length ∧
+    ((readChunks (run Port.real (init 0) ops).2).filter (fun c => c.isEmpty)).length = 4 ∧
+    ((readChunks (run Port.real (init 0)
+      [.peerSend [1, 2, 3], .osDeliver 1, .read, .osDeliver 1, .read, .osDeliver 1, .read]).2).filter
+        (fun c => c.isEmpty)).length = 0 := by decide
+
+/-! ### what padding is for: every write starts on a multiple of the padding -/
+
+/-- with a padding `p > 0`: in the transmit stream of any sequence of writes of any sizes, every write `d` starts at an
+    offset that is a multiple of `p` and occupies a multiple of `p` bytes -/
+theorem writes_start_aligned (p : Nat) (hp : 0 < p) (a b : List Op) (d : Bytes) :
+    ((writes (a ++ .write d :: b)).map (Pad.dataAlign p)).flatten
+      = ((writes a).map (Pad.dataAlign p)).flatten ++ Pad.dataAlign p d ++ ((writes b).map (Pad.dataAlign p)).flatten ∧
+    ((writes a).map (Pad.dataAlign p)).flatten.length % p = 0 ∧ (Pad.dataAlign p d).length % p = 0 := by
+  refine ⟨?_, aligned_flatten_mod p hp _, dataAlign_length_mod p hp d⟩
+  rw [writes_append]
+  simp [writes]
+
+/-- and for every history from a fresh port with padding `p > 0` never changed, once everything is delivered and taken,
+    the other end has received a whole number of `p`-byte blocks -/
+theorem arrived_length_aligned (pt : Port) (p : Nat) (hp0 : 0 < p) (ops : List Op) (hp : ∀ q, Op.setPad q ∉ ops)
+    (hf : (run pt (init p) ops).1.txFlight = []) (hw : (run pt (init p) ops).1.txWaiting = []) :
+    (peerGot (run pt (init p) ops).2).length % p = 0 := by
+  rw [(writes_arrive pt p ops hp).2 hf hw]
+  exact aligned_flatten_mod p hp0 _
+
+/-- hypotheses satisfiable: padding 4, writes of 1, 5 and 4 bytes → 4 + 8 + 4 bytes, the second starts at offset 4 -/
+example :
+    let ops : List Op := [.write [1], .write [2, 3, 4, 5, 6], .osDeliverTx 100, .peerRecv, .write [7, 8, 9, 10],
+      .osDeliverTx 4, .peerRecv]
+    (∀ q, Op.setPad q ∉ ops) ∧ (run Port.real (init 4) ops).1.txFlight = [] ∧ (run Port.real (init 4) ops).1.txWaiting = [] ∧
+    peerGot (run Port.real (init 4) ops).2 = [1, 0, 0, 0, 2, 3, 4, 5, 6, 0, 0, 0, 7, 8, 9, 10] := by
+  refine ⟨?_, by decide, by decide, by decide⟩
+  intro q hq
+  simp at hq
 
 end Nxs.C18
